@@ -56,6 +56,24 @@ def _wrap_summary(holder, fn):
     return call
 
 
+def _stale_loop_contracts(I):
+    """loop contracts of functions this path executed whose anchor text is the head of no loop statement of the function's current source"""
+    import ast
+    out = []
+    for q, specs in I.loops.items():
+        if q not in I.functions_executed:
+            continue
+        try:
+            node = I.resolve(q).node
+        except Exception:
+            continue
+        heads = [ast.unparse(n).split("\n")[0] for n in ast.walk(node) if isinstance(n, (ast.For, ast.While))]
+        for sp in specs:
+            if not any(h.startswith(sp.anchor) for h in heads):
+                out.append("%s [%s]" % (q.split(".")[-1], sp.anchor))
+    return sorted(set(out))
+
+
 def run_case(harness, case, timeout_ms=10000, max_paths=20000, want_smt2=False, deadline=None):
     """returns a result dict (picklable)"""
     t0 = time.time()
@@ -93,7 +111,15 @@ def run_case(harness, case, timeout_ms=10000, max_paths=20000, want_smt2=False, 
             res["undecided"].append({"reason": "recursion limit"})
         except Exception:
             res["errors"].append(traceback.format_exc())
+        stale = _stale_loop_contracts(I)
+        if stale and any(ob.verdict == "refuted" for ob in eng.obligations):
+            # a loop contract whose loop was rewritten is not applied: the loop is unrolled from its entry state WITHOUT the ghost facts the
+            # contract instantiates at the loop head, so a failed obligation on such a path is no counterexample - the path is undecided
+            res["undecided"].append({"reason": "unsupported: loop contract %s matches no loop of the current source (loop rewritten?); %d failed obligation(s) of this "
+                                               "path are not counterexamples" % ("; ".join(stale), sum(ob.verdict == "refuted" for ob in eng.obligations))})
         for ob in eng.obligations:
+            if stale and ob.verdict == "refuted":
+                continue
             d = ob.as_dict()
             d["path"] = res["paths"]
             if ob.verdict == "refuted":
